@@ -97,12 +97,56 @@ def rule_r4(F, rep):
     rep.floor(R, n, 2, "join item handlers")
 
 
+TRIM_SET = {0x09, 0x0A, 0x0C, 0x0D, 0x20, 0x85, 0xA0}
+
+
+def rule_r5(F, rep):
+    from . import kwalk, chartab, evalmarks as em
+    R = rep.rule("C18.R5", "std.trim strips exactly the Jsonnet whitespace characters (tab, LF, FF, CR, space, U+0085, U+00A0): it "
+                 "calls trim_matches with a predicate whose accepted set is exactly that, not the Unicode White_Space class of "
+                 "str::trim")
+    fn = F.fn("<%s>::do_std_trim" % em.EVAL)
+    rep.fn(fn)
+    names = [callee_name(t) or "" for _, t in fn.body.calls()]
+    uni = [n for n in names if n in ("<str>::trim", "<str>::trim_start", "<str>::trim_end", "core::str::<impl str>::trim")]
+    for n in uni:
+        rep.violation(R, "do_std_trim|unicode-whitespace", "std.trim calls %s, which strips the whole Unicode White_Space class "
+                      "(vertical tab, U+2000-U+200A, U+3000, ...) instead of Jsonnet's seven characters" % n, fn.loc)
+    clos = list(F.closures_of(fn))
+    tm = [n for n in names if "trim_matches" in n]
+    ok = bool(tm) and not uni and len(clos) >= 1
+    rep.ob(R, "do_std_trim|trim_matches", ok)
+    if not tm and not uni:
+        rep.violation(R, "do_std_trim|no-trim_matches", "std.trim no longer strips with trim_matches over a character predicate", fn.loc)
+    n = 0
+    for c in clos:
+        classes = chartab.representatives(c.body, "char", extra=[0x09, 0x0A, 0x0B, 0x0C, 0x0D, 0x0E, 0x20, 0x21, 0x85, 0x86, 0xA0, 0xA1, 0x1680, 0x2000, 0x200B, 0x2028, 0x3000, 0x3001])
+        bad = []
+        for a, b in classes:
+            w = kwalk.Walker(F, c.body, want_ret=True)
+            res = set()
+            for kind, marks, ret in w.run(0, {"2": a}):
+                res.add(dict(ret or ()).get("0"))
+            rep.states += w.states_explored
+            n += 1
+            want = 1 if (a in TRIM_SET and a == b) else 0
+            if a != b and any(x in TRIM_SET for x in (a, b)):
+                bad.append(("U+%04X..U+%04X" % (a, b), "class not split"))
+            elif res != {want}:
+                bad.append(("U+%04X..U+%04X" % (a, b), sorted(map(str, res))))
+        rep.ob(R, "do_std_trim|predicate", not bad, {"classes": len(classes)})
+        if bad:
+            rep.violation(R, "do_std_trim|predicate", "the predicate of std.trim accepts a different set than Jsonnet's whitespace: %s" % bad[:5], c.loc)
+    rep.floor(R, n, 8, "character classes of the trim predicate")
+
+
 def run(F, rep, tier):
     units.rule_mix(F, rep, "C18.R1")
     units.rule_char_and_user(F, rep, "C18.R1b")
     rule_r2(F, rep)
     units.rule_byte_index(F, rep, "C18.R3")
     rule_r4(F, rep)
+    rule_r5(F, rep)
     rep.assume("join/split/strip/replace/trim identities are delegated to str::{split,splitn,rsplitn,replace,"
                "strip_prefix,trim_matches} and not decided; `+- constant` after a search is accepted (documented miss)")
     return EXPLANATION
